@@ -528,7 +528,7 @@ def known_region(p, combo, mode, what):
         return "odpor-befs-random-incomplete"
     if red == "sdpor" and what == "checker-crash":
         return "sdpor-crash"
-    if mode == "B" and missed and (red, algo) not in (("none", "DFS"), ("dpor", "DFS")):
+    if mode == "B" and missed and (red, algo) != ("none", "DFS"):
         return "maxerr-%s-%s-incomplete" % (red, algo)
     return None
 
@@ -641,7 +641,10 @@ def run(ctx):
 
     if ctx.replay:
         case = json.load(open(ctx.replay))["case"]
-        items = [(case["prog"], [tuple(case["combo"]), WITNESS] if case.get("combo") else None, True)]
+        # the replayed combination plus every strategy-none combination of the same program as independent witnesses
+        forced = [tuple(case["combo"])] if case.get("combo") else []
+        forced += [c for c in combos(case["prog"], full=False) if c not in forced]
+        items = [(case["prog"], forced, True)]
     else:
         n = ctx.n(22, 260)
         cands = [gen_prog(ctx.rng, limit=ctx.n(700, 1500)) for _ in range(6 * n)]
@@ -659,8 +662,6 @@ def run(ctx):
             dist["skipped-invalid-or-too-big"] += 1
             continue
         cs = forced or plan(p, 0, uni)
-        if forced and interleavings(p) > NONE_LIMIT:
-            cs = [c for c in cs if c != WITNESS or tuple(forced[0]) == WITNESS]
         work.append((p, m, cs))
         tot_states += m["nstates"]
         tot_trans += m["ntrans"]
@@ -668,7 +669,8 @@ def run(ctx):
         dist["profile:" + p.get("profile", "?")] = dist.get("profile:" + p.get("profile", "?"), 0) + 1
     # mode A everywhere; mode B (max-errors=-1: keep exploring after an error) for the strategy-none combos
     resA = run_many(runner, work, ("A",))
-    workB = [(p, m, [c for c in cs if c[2] == "none"]) for p, m, cs in work]
+    # (every other program only: beyond brute force, exploring after an accepted error is a known-defective area)
+    workB = [(p, m, [c for c in cs if c[2] == "none"] if (k % 2 == 0 or ctx.replay) else []) for k, (p, m, cs) in enumerate(work)]
     resB = run_many(runner, [(p, m, cs if (m["deadlock"] or m["failure"]) else []) for p, m, cs in workB], ("B",))
 
     ctx.notes.append("simgrid-mc runs done at %.0fs" % (time.time() - ctx.t0))
@@ -690,6 +692,9 @@ def run(ctx):
             if v["kind"] == "skip":
                 skipped += v["what"] == "timeout"
                 rejected += v["what"] == "rejected"
+            elif v["kind"] == "mismatch" and v["what"].endswith("-unwitnessed") and known_region(p, v["combo"], v["mode"], "missed-outcome"):
+                # nobody exhibited it on the real program, but this combination is known to be incomplete: charge it there
+                ctx.fail(known_region(p, v["combo"], v["mode"], "missed-outcome"), v["text"] + " on " + show(p), case)
             elif v["kind"] == "mismatch":
                 ctx.mismatch("reference-vs-simgrid-mc:" + v["what"], v["text"] + " on " + show(p), case)
             else:
